@@ -2543,7 +2543,7 @@ theorem inv_step {s : Sys} (h : Inv s) (e : Ev) (hf : Frag s e) : Inv (step s e)
       have : (step s (.ccAdd name spec)).1 = s := by simp [step, hg]
       rw [this]; exact h
     | none =>
-      have : (step s (.ccAdd name spec)).1 = { s with api := { s.api with ccs := s.api.ccs ++ [⟨name, spec, [], false, 1, 1⟩] } } := by
+      have : (step s (.ccAdd name spec)).1 = { s with api := { s.api with ccs := s.api.ccs ++ [⟨name, spec, [], false, 1, freshRv s⟩] } } := by
         simp [step, hg]
       rw [this]; exact h.congr' rfl rfl rfl rfl
   | ccDel name =>
